@@ -118,6 +118,7 @@ def st_bytes(draw, tier):
             "seed": draw(st.integers(0, 2**16)),
             "etag": draw(st.sampled_from([True, True, True, False])),
             "first_fail": draw(st.sampled_from([False, False, False, True])),
+            "replaced": draw(st.sampled_from([0, 0, 0, 300, -7, 1, 5000])),
             "ops": draw(st.sampled_from([1, 4, 8, 16, 24]).flatmap(
                 lambda lo: st.lists(st_op(), min_size=lo, max_size=MAX_OPS[tier])))}
 
@@ -458,6 +459,26 @@ def _run_bytes(spec, rec):
             _check_cache(rec, f, blob, cs, keep, ctx, 0 in before)
         if nontrivial:
             rec.nontrivial()
+        if spec.get("replaced"):
+            # the resource behind the same URL is replaced (other size, other bytes);
+            # a new file object must describe and return the new resource
+            L2 = max(0, L + int(spec["replaced"]))
+            blob2 = _blob(spec["seed"] + 1, L2)
+            srv.put(name, blob2, etag=spec.get("etag", True))
+            f2 = http_utils.HTTPFile(url, chunk_size=cs, keep_chunks=keep)
+            try:
+                rec.cls("url-reused-for-new-resource")
+                rec.check(f2.length == L2, "reopen/length",
+                          lambda: f"new object on a replaced resource reports length "
+                                  f"{f2.length}, the resource has {L2} bytes")
+                f2.seek(0)
+                got2 = f2.read()
+                rec.check(got2 == blob2, "reopen/content",
+                          lambda: f"new object on a replaced resource returns "
+                                  f"{len(got2)} bytes that differ from the resource "
+                                  f"({L2} bytes)")
+            finally:
+                f2.close()
     finally:
         f.close()
         srv.remove(name)
